@@ -38,7 +38,7 @@ Definition is_valid_boolstr (lim : N) (value : pyval) : res bool :=
 
 (* ---------- strutils.is_int_like ---------- *)
 Definition is_int_like (lim : N) (val : pyval) : res bool :=
-  try_except [TypeError; ValueError]
+  try_except [TypeError; ValueError; OverflowError]
     (do i <- py_int_of lim val; do a <- str_of_int lim i; do b <- py_str lim val; Ok (beq a b))
     (Ok false).
 
